@@ -5,7 +5,7 @@ mod shared;
 
 use crate::{
     query::*,
-    schema::{InputId, TypeId},
+    schema::{input_is_recursive_without_indirection, InputId, TypeId},
     type_qualifiers::GraphqlTypeQualifier,
     GeneralError, GraphQLClientCodegenOptions,
 };
@@ -339,6 +339,14 @@ where
         shared::keyword_replace(normalized_name).as_ref(),
         Span::call_site(),
     );
+    // Same indirection as the member of the generated input type (see inputs.rs).
+    let is_boxed = |member_type: TypeId| {
+        member_type
+            .as_input_id()
+            .map(|input_id| input_is_recursive_without_indirection(input_id, query.schema))
+            .unwrap_or(false)
+    };
+
     if input.is_one_of {
         // A @oneOf input is generated as an enum (see inputs.rs): the literal selects one variant.
         let mut provided = input
@@ -352,7 +360,11 @@ where
                     Span::call_site(),
                 );
                 let value = graphql_parser_value_to_literal(value, r#type.id, false, options, query);
-                quote!(#constructor::#variant(#value))
+                if is_boxed(r#type.id) {
+                    quote!(#constructor::#variant(Box::new(#value)))
+                } else {
+                    quote!(#constructor::#variant(#value))
+                }
             }
             _ => quote!(compile_error!(
                 "A @oneOf input object literal must set exactly one field."
@@ -370,18 +382,20 @@ where
                 Span::call_site(),
             );
             let provided_value = object_map.get(name);
-            match provided_value {
-                Some(default_value) => {
-                    let value = graphql_parser_value_to_literal(
-                        default_value,
-                        r#type.id,
-                        r#type.is_optional(),
-                        options,
-                        query,
-                    );
-                    quote!(#field_name: #value)
-                }
-                None => quote!(#field_name: None),
+            let value = match provided_value {
+                Some(default_value) => graphql_parser_value_to_literal(
+                    default_value,
+                    r#type.id,
+                    r#type.is_optional(),
+                    options,
+                    query,
+                ),
+                None => quote!(None),
+            };
+            if is_boxed(r#type.id) {
+                quote!(#field_name: Box::new(#value))
+            } else {
+                quote!(#field_name: #value)
             }
         })
         .collect();
